@@ -61,6 +61,14 @@ static u64 scale10(u64 x, int k) { for (int i = 0; i < 2 * OSMT_N + 8; i++) if (
 /* k if d == 10^k (k <= 2N+8), else -1 */
 static int log10exact(u64 d) { u64 p = 1; int r = -1; for (int i = 0; i < 2 * OSMT_N + 8; i++) { if (d == p) r = i; p = (p << 3) + (p << 1); } return r; }
 static u64 pow10u(int k) { u64 p = 1; for (int i = 0; i < k && i < 2 * OSMT_N + 8; i++) p *= 10; return p; }
+#ifdef C16_INT_LC
+/* isIntString under a loop contract: the string lives in a static buffer, h_len is the position of its NUL, g_w the first non-digit after the optional sign (-1: none) */
+static t_char h_s[OSMT_CAP + 1]; t_int h_len, g_w;
+#define OSMT_LOOP_isIntString_1 \
+  __CPROVER_assigns(i) \
+  __CPROVER_loop_invariant(first <= i && i <= h_len && (g_w >= 0 ==> i <= g_w)) \
+  __CPROVER_decreases(h_len - i)
+#endif
 /* characters that can occur in a numeric literal at all */
 static int lit_char(char c) { return is_dig(c) || c == '.' || c == '/' || c == '-'; }
 #endif
